@@ -15,6 +15,7 @@
 
 #include <sched.h>
 
+#include <algorithm>
 #include <atomic>
 #include <string>
 #include <thread>
@@ -73,19 +74,18 @@ struct World {
   std::atomic<int> mbox[8];       // accessor hand-over: object id + 1, 0 = not given yet
   std::atomic<int> done {0};
   bool freed[64] = {false};
-  int next_obj = 2;               // only touched inside the unlink exchange's thread
   std::vector<Epoch::Accessor> accs;
 };
 
 struct Local {
+  int tid = 0;   // program thread number (1-based)
+  int nunl = 0;  // objects this thread has installed
   int obj = 0;
   std::vector<int> pend;
   std::vector<std::pair<int, uint64_t>> retired;
   uint64_t e = 0;
   uint64_t mark = 0;
 };
-
-std::atomic<int> g_next_obj {2};
 
 void run_op(World& w, Local& l, const OpSpec& op) {
   const std::string& n = op.name;
@@ -99,8 +99,7 @@ void run_op(World& w, Local& l, const OpSpec& op) {
     return;
   }
   if (n == "un") {
-    // the id of the fresh object is taken without an interposed operation
-    int fresh = __atomic_fetch_add((int*)&g_next_obj, 1, __ATOMIC_RELAXED);
+    int fresh = 10 * l.tid + (++l.nunl); // object ids: 1 = initial, 10 * thread + k = k-th object installed by thread
     int old = w.ptr.exchange(fresh, std::memory_order_acq_rel);
     l.pend.push_back(old);
     vsched::eventf(false, "\"k\":\"unlink\",\"obj\":%d,\"fresh\":%d", old, fresh);
@@ -188,6 +187,7 @@ void scenario_epoch(const vrun::Params& p) {
     for (size_t t = 0; t < prog.size(); t++) {
       ths.emplace_back([&, t] {
         Local l;
+        l.tid = (int)t + 1;
         for (auto& op : prog[t]) run_op(w, l, op);
         // no thread exits (and gives its thread id back) before every thread is through its program
         w.done.fetch_add(1, std::memory_order_acq_rel);
